@@ -303,10 +303,10 @@ func c02Instances(add func(*Instance), thorough bool, inv int) {
 		}
 		// conversion edges (argument confined to a window)
 		type edge struct {
-			name    string
-			p       map[string]int
-			xb, xm  int
-			tier    int
+			name   string
+			p      map[string]int
+			xb, xm int
+			tier   int
 		}
 		edges := []edge{
 			{"A*(4096;2): 4097th insert", P("ak", 1, "akeys", 0, "acow", 0, "ac0", 13), 30720, 31, 0},
@@ -351,27 +351,27 @@ func c02Instances(add func(*Instance), thorough bool, inv int) {
 			ln = 3
 		}
 		type rg struct {
-			p                    map[string]int
-			sb, sm, eb, em, ln   int
-			tier                 int
+			p                  map[string]int
+			sb, sm, eb, em, ln int
+			tier               int
 		}
 		topTier := 0
 		if m == 8 {
 			topTier = 1
 		}
 		rgs := []rg{
-			{two, 0, 262143, 0, 0, 3, 0},                                    // short range anywhere in keys 0..3 (free low bits); length <= 7 below (thorough)
-			{three, 65528, 15, 131064, 15, -1, 1},                           // long: from the end of chunk 0 across chunk 1 into chunk 2
+			{two, 0, 262143, 0, 0, 3, 0},          // short range anywhere in keys 0..3 (free low bits); length <= 7 below (thorough)
+			{three, 65528, 15, 131064, 15, -1, 1}, // long: from the end of chunk 0 across chunk 1 into chunk 2
 			{P("ak", 3, "akeys", 4, "acow", 0, "ac0", 1, "ac1", 220, "ac2", 1), 65528, 15, 131064, 15, -1, 0}, // same with tiny chunks
-			{three, 0, 7, 196600, 15, -1, 1},                                // covers every chunk
-			{top, 4294967280, 15, 4294967288, 15, -1, topTier},              // up to 2^32
-			{top, 4294901752, 15, 4294967288, 15, -1, 1},                    // whole last chunk region, e up to 2^32
-			{bmp, 65536 + 4150, 15, 65536 + 4200, 15, -1, 0},                // inside a bitmap chunk, word edges
-			{bmp, 65536 + 60, 7, 65536 + 65528, 7, -1, 1},                   // almost the whole bitmap chunk (-> full / empty)
-			{full, 100, 7, 65530, 7, -1, 0},                                 // inside a full run chunk
-			{P("ak", 1, "akeys", 4, "acow", 1, "ac0", 212), 0, 65535, 0, 0, ln, 1}, // free run lengths, cow
+			{three, 0, 7, 196600, 15, -1, 1},                                                                     // covers every chunk
+			{top, 4294967280, 15, 4294967288, 15, -1, topTier},                                                   // up to 2^32
+			{top, 4294901752, 15, 4294967288, 15, -1, 1},                                                         // whole last chunk region, e up to 2^32
+			{bmp, 65536 + 4150, 15, 65536 + 4200, 15, -1, 0},                                                     // inside a bitmap chunk, word edges
+			{bmp, 65536 + 60, 7, 65536 + 65528, 7, -1, 1},                                                        // almost the whole bitmap chunk (-> full / empty)
+			{full, 100, 7, 65530, 7, -1, 0},                                                                      // inside a full run chunk
+			{P("ak", 1, "akeys", 4, "acow", 1, "ac0", 212), 0, 65535, 0, 0, ln, 1},                               // free run lengths, cow
 			{P("ak", 1, "akeys", 4, "acow", 1, "ac0", 202), 0, 65535, 0, 0, 3, map[int]int{6: 1, 7: 0, 8: 1}[m]}, // two short runs, cow (AddRange/Flip: > 4 min since minimizeRunContainer joined the range paths)
-			{P("ak", 1, "akeys", 4, "acow", 1, "ac0", 201), 0, 65535, 0, 0, 3, 0},        // one short run, cow
+			{P("ak", 1, "akeys", 4, "acow", 1, "ac0", 201), 0, 65535, 0, 0, 3, 0},                                // one short run, cow
 			{two, 0, 262143, 0, 0, 7, 1},
 			{P("ak", 1, "akeys", 4, "acow", 0, "ac0", 13), 30720, 31, 30800, 31, -1, 1}, // range on a 4096-element array
 		}
@@ -868,6 +868,15 @@ func c11Instances(add func(*Instance), thorough bool, inv int) {
 			}
 		}
 	}
+	// AndAny's reusable scratch bitmap chunk: at two consecutive keys the filters' containers sum to more than 4096 values
+	// (long anchored runs that may or may not reach 65535, plus an array element), the receiver holds values up to 65535
+	if inv == 0 {
+		for i, xb := range []int{131056, 65520, 56} {
+			add(&Instance{Func: "VerifC11Aggregate", Tier: map[int]int{0: 0, 1: 1, 2: 1}[i], Params: with(base, "g", 4, "lst", 123, "w", 1,
+				"ak", 2, "akeys", 4, "ac0", 21, "ac1", 226, "bk", 2, "bkeys", 4, "bc0", 221, "bc1", 221, "ck", 2, "ckeys", 4, "cc0", 21, "cc1", 21,
+				"xb", xb, "xm", 15)})
+		}
+	}
 	// goroutine-based aggregates: worker counts 0..3, keys at the top of the key space, interleaved, wide and narrow spans
 	// several keys inside one work chunk, the third member inserting a key below and a key above an accumulated one
 	for g := 5; g <= 7; g++ {
@@ -922,7 +931,7 @@ func c16Instances(add func(*Instance), thorough bool) {
 		P("ak", 2, "akeys", 4, "ac0", 22, "ac1", 224, "xb", 56, "xm", 15),
 		P("ak", 2, "akeys", 4, "ac0", 100, "ac1", 226, "xb", 65536, "xm", 127),
 		P("ak", 1, "akeys", 4, "ac0", 226, "xb", 65500, "xm", 63),
-		P("ak", 2, "akeys", 5, "ac0", 21, "ac1", 21, "xb", 65536 + 56, "xm", 15),
+		P("ak", 2, "akeys", 5, "ac0", 21, "ac1", 21, "xb", 65536+56, "xm", 15),
 		P("ak", 0, "xb", 0, "xm", 255),
 		P("ak", 2, "akeys", 4, "ac0", 220, "ac1", 227, "xb", 65530, "xm", 15),
 	} {
